@@ -970,27 +970,29 @@ func (self *Assembler) _asm_OP_number(_ *ir.Instr) {
 }
 
 func (self *Assembler) _asm_OP_eface(_ *ir.Instr) {
-	self.prep_buffer_AX()                     // MOVE  {buf}, AX
-	self.Emit("MOVQ", jit.Ptr(_SP_p, 0), _BX) // MOVQ  (SP.p), BX
-	self.Emit("LEAQ", jit.Ptr(_SP_p, 8), _CX) // LEAQ  8(SP.p), CX
-	self.Emit("MOVQ", _ST, _DI)               // MOVQ  ST, DI
-	self.Emit("MOVQ", _ARG_fv, _SI)           // MOVQ  fv, AX
-	self.call_encoder(_F_encodeTypedPointer)  // CALL  encodeTypedPointer
-	self.Emit("TESTQ", _ET, _ET)              // TESTQ ET, ET
-	self.Sjmp("JNZ", _LB_error)               // JNZ   _error
+	self.prep_buffer_AX()                                // MOVE  {buf}, AX
+	self.Emit("MOVQ", jit.Ptr(_SP_p, 0), _BX)            // MOVQ  (SP.p), BX
+	self.Emit("LEAQ", jit.Ptr(_SP_p, 8), _CX)            // LEAQ  8(SP.p), CX
+	self.Emit("MOVQ", _ST, _DI)                          // MOVQ  ST, DI
+	self.Emit("MOVQ", _ARG_fv, _SI)                      // MOVQ  fv, AX
+	self.Emit("BTRQ", jit.Imm(alg.BitPointerValue), _SI) // BTRQ $1, SI: a value held in an interface is never addressable
+	self.call_encoder(_F_encodeTypedPointer)             // CALL  encodeTypedPointer
+	self.Emit("TESTQ", _ET, _ET)                         // TESTQ ET, ET
+	self.Sjmp("JNZ", _LB_error)                          // JNZ   _error
 	self.load_buffer_AX()
 }
 
 func (self *Assembler) _asm_OP_iface(_ *ir.Instr) {
-	self.prep_buffer_AX()                     // MOVE  {buf}, AX
-	self.Emit("MOVQ", jit.Ptr(_SP_p, 0), _CX) // MOVQ  (SP.p), CX
-	self.Emit("MOVQ", jit.Ptr(_CX, 8), _BX)   // MOVQ  8(CX), BX
-	self.Emit("LEAQ", jit.Ptr(_SP_p, 8), _CX) // LEAQ  8(SP.p), CX
-	self.Emit("MOVQ", _ST, _DI)               // MOVQ  ST, DI
-	self.Emit("MOVQ", _ARG_fv, _SI)           // MOVQ  fv, AX
-	self.call_encoder(_F_encodeTypedPointer)  // CALL  encodeTypedPointer
-	self.Emit("TESTQ", _ET, _ET)              // TESTQ ET, ET
-	self.Sjmp("JNZ", _LB_error)               // JNZ   _error
+	self.prep_buffer_AX()                                // MOVE  {buf}, AX
+	self.Emit("MOVQ", jit.Ptr(_SP_p, 0), _CX)            // MOVQ  (SP.p), CX
+	self.Emit("MOVQ", jit.Ptr(_CX, 8), _BX)              // MOVQ  8(CX), BX
+	self.Emit("LEAQ", jit.Ptr(_SP_p, 8), _CX)            // LEAQ  8(SP.p), CX
+	self.Emit("MOVQ", _ST, _DI)                          // MOVQ  ST, DI
+	self.Emit("MOVQ", _ARG_fv, _SI)                      // MOVQ  fv, AX
+	self.Emit("BTRQ", jit.Imm(alg.BitPointerValue), _SI) // BTRQ $1, SI: a value held in an interface is never addressable
+	self.call_encoder(_F_encodeTypedPointer)             // CALL  encodeTypedPointer
+	self.Emit("TESTQ", _ET, _ET)                         // TESTQ ET, ET
+	self.Sjmp("JNZ", _LB_error)                          // JNZ   _error
 	self.load_buffer_AX()
 }
 
